@@ -294,6 +294,10 @@ def write_evidence(path, pid, tier, seed, spec, results, confirmed, inconclusive
                     "pruned before VC generation) and it was decided by the SMT solver (not by constant folding)",
             "samples": samples,
             "traces_validated_against_impl": cosim_n,
+            "states": max(1, npaths),
+            "transitions": max(1, int(stats.get("blocks", 0))),
+            "states_transitions_rule": "states = symbolic execution paths (path condition + symbolic store at a path end) explored; "
+                                       "transitions = MIR basic blocks entered during symbolic execution, summed over paths",
             "obligations": nvc,
             "discharged": nd,
             "cases": len(results),
